@@ -378,7 +378,14 @@ def main(pid="C02"):
                               ("encoded, dots too", "/" + urllib.parse.quote(nm, safe="/").replace(".", "%2E"))):
                 if form == "literal" and any(c in nm for c in "?#%\t"):
                     continue       # not writable literally in a URL path
-                resp = handler.handle(make_request(pth))
+                # through the real request parser: a name the parser refuses is as unreachable as one the handler refuses
+                try:
+                    resp = handler.handle(GeminiRequest.from_line("gemini://h.ex" + pth))
+                except ValueError as e_:
+                    rep.violation({"formula": "Reachable", "form": form, "refused_by_parser": True},
+                                  "file %r inside the root requested as %r (%s): the request line is refused: %s" % (nm, pth, form, e_), None)
+                    reach += 1
+                    continue
                 reach += 1
                 ok = resp.status == 20 and isinstance(resp.body, str) and ("REACH<%s>" % nm) in resp.body
                 if not ok:
